@@ -6,6 +6,7 @@
   returned iff it is well-formed UTF-8, ErrInvalidUTF8 otherwise.
 -/
 import WsVerif.Props.C07ReadMessage
+import WsVerif.Props.C04DiscardMsg
 namespace Ws.C04
 open Ws Ws.Spec Ws.RdProof Ws.RdText
 
@@ -254,6 +255,61 @@ theorem readData_single_text (state want : Nat) (errText : ProtoErr → Bytes) (
     simp only at hp
     subst hp
     simp
+
+/-- Discard over a message without interleaved control frames, ANY OnIntermediate handler (it is never called). -/
+theorem discard_tail_nc (cb : Option Callback) (skip : Bool) (st maxF : Nat) (rest : Bytes) (cx : Ctx) (fs : List WFrame)
+    (ht : Tail false skip st maxF fs) (hnc : ∀ f ∈ fs, opIsControl f.h.op = false) :
+    ∀ (r : Rd) (s : Src) (wire : Bytes) (fuel : Nat),
+      Common skip st maxF r s → r.state = st → r.rawN = wire.length → s.bytes = wire ++ (encodeFs fs ++ rest) →
+      fs.length < fuel →
+      ∃ r' s', r.discard s cx cb fuel = (none, r', s', cx) ∧ s'.bytes = rest ∧ Src.Tame s' := by
+  induction ht with
+  | opn h => cases h
+  | last f hok hdata hfin hacc =>
+    intro r s wire fuel hc hst hn hb hfuel
+    match fuel, hfuel with
+    | n + 2, _ =>
+    obtain ⟨s1, hd, hb1, ht1, _, _⟩ := drainRaw_ok s.fuel r s wire (encodeFs [f] ++ rest) hb hn hc.tame (by unfold Src.fuel mu; omega)
+    have hfr : ({ r with rawN := 0 } : Rd).fragmented = true := by simp [Rd.fragmented, hst, hc.stF]
+    have hbytes : s1.bytes = rfcEncode f.h ++ (f.wire ++ rest) := by rw [hb1]; simp [encodeFs, WFrame.enc]
+    have hwf1 : Bytes.WF s1.bytes := by rw [hb1]; exact wf_append_right (hb ▸ hc.wf)
+    have hwt : Bytes.WF (f.wire ++ rest) := by rw [hbytes] at hwf1; exact wf_append_right hwf1
+    obtain ⟨s2, hrh, hb2, ht2, _⟩ := readHeader_ok f.h hok.hwf _ hwt s1 hbytes ht1
+    have hacc' : Accepts ({ r with rawN := 0 } : Rd) f.h := by
+      unfold Accepts; simp only [hc.skip, hst, hc.maxF]; exact hacc
+    have hnext := nextFrame_data ({ r with rawN := 0 } : Rd) s1 s2 cx cb f.h hrh hacc' (by simp [hc.ext]) hdata
+    have hnf : (enter ({ r with rawN := 0 } : Rd) f.h).fragmented = false := by
+      simp [enter, Rd.fragmented, hfin, hst, hc.stClr]
+    obtain ⟨s', hdisc, hb', ht'⟩ := discard_final_frame (enter ({ r with rawN := 0 } : Rd) f.h) s2 cx cb n f.wire rest hnf hb2
+      (by simp [enter, hok.len]) ht2
+    refine ⟨(({ enter ({ r with rawN := 0 } : Rd) f.h with rawN := 0 } : Rd)).reset, s', ?_, hb', ht'⟩
+    rw [Rd.discard]
+    simp only [hd, hfr, Bool.not_true, Bool.false_eq_true, if_false, hnext, hdisc]
+  | cont f fs hok hdata hfin hacc _ ih =>
+    have ih := ih (fun g hg => hnc g (List.mem_cons_of_mem _ hg))
+    intro r s wire fuel hc hst hn hb hfuel
+    match fuel, hfuel with
+    | n + 1, hfuel =>
+    obtain ⟨s1, hd, hb1, ht1, _, _⟩ := drainRaw_ok s.fuel r s wire (encodeFs (f :: fs) ++ rest) hb hn hc.tame (by unfold Src.fuel mu; omega)
+    have hfr : ({ r with rawN := 0 } : Rd).fragmented = true := by simp [Rd.fragmented, hst, hc.stF]
+    have hbytes : s1.bytes = rfcEncode f.h ++ (f.wire ++ (encodeFs fs ++ rest)) := by rw [hb1]; simp [encodeFs, WFrame.enc]
+    have hwf1 : Bytes.WF s1.bytes := by rw [hb1]; exact wf_append_right (hb ▸ hc.wf)
+    have hwt : Bytes.WF (f.wire ++ (encodeFs fs ++ rest)) := by rw [hbytes] at hwf1; exact wf_append_right hwf1
+    obtain ⟨s2, hrh, hb2, ht2, _⟩ := readHeader_ok f.h hok.hwf _ hwt s1 hbytes ht1
+    have hacc' : Accepts ({ r with rawN := 0 } : Rd) f.h := by
+      unfold Accepts; simp only [hc.skip, hst, hc.maxF]; exact hacc
+    have hnext := nextFrame_data ({ r with rawN := 0 } : Rd) s1 s2 cx cb f.h hrh hacc' (by simp [hc.ext]) hdata
+    have hc2 : Common skip st maxF (enter ({ r with rawN := 0 } : Rd) f.h) s2 :=
+      common_of skip st maxF hc _ s2 (by simp [enter]) (by simp [enter]) (by simp [enter]) (by simp [enter]) ht2 (by rw [hb2]; exact hwt)
+    obtain ⟨r', s', hdisc, hb', ht'⟩ := ih (enter ({ r with rawN := 0 } : Rd) f.h) s2 f.wire n hc2
+      (by simp [enter, hfin, hst, hc.stSet]) (by simp [enter, hok.len]) hb2 (by simp at hfuel; omega)
+    refine ⟨r', s', ?_, hb', ht'⟩
+    rw [Rd.discard]
+    simp only [hd, hfr, Bool.not_true, Bool.false_eq_true, if_false, hnext, hdisc]
+  | ctl f fs hok hctl hacc _ ih =>
+    have := hnc f (by simp)
+    rw [hctl] at this; cases this
+
 
 /-- Non-vacuity: ReadClientData (server side, text or binary wanted) on the masked text "é" and on a lone C3, and
     ReadClientBinary-like (binary only wanted) on a masked binary frame — each off two transport chunks. -/
